@@ -13,7 +13,7 @@ TECHNIQUE = "Lean 4 theorems over generated constraint systems / policy models; 
 
 def run(chk: common.Check):
     pp.run_prop(chk, "C12")
-    e2e.run_planner_pass(chk, "C12", n_quick=200, n_thorough=2000)
+    e2e.run_planner_pass(chk, "C12", n_quick=400, n_thorough=3000)
 
 
 def replay(path) -> int:
